@@ -42,6 +42,9 @@ VH_MAIN_BEGIN
 #else
     dobj = (T *)vh_alloc(DOBJ * sizeof(T));
 #endif
+#ifdef ASCII_ONLY /* wide case mapping: libc's towlower/towupper are ASCII models; contents restricted accordingly */
+    for (unsigned i = 0; i < DOBJ; i++) ASSUME(in.d[i] >= 0 && in.d[i] < 0x80);
+#endif
     for (unsigned i = 0; i < DOBJ; i++) dobj[i] = in.d[i];
     T *dest = dnull ? (T *)0 : dobj;
     const T *src = snull ? (const T *)0 : sobj;
@@ -130,6 +133,9 @@ VH_MAIN_BEGIN
     wl = 0;
 #elif XK == 7 || XK == 8
     rc = CALL;
+#ifdef ZERO_OK /* wcslwr_s/wcsupr_s: a length of 0 is documented as EOK, nothing is looked at */
+    if (dmax == 0) { viol = 0; goto done_ref; }
+#endif
     for (unsigned i = 0; i < DOBJ; i++)
         if (i < dl) {
 #if XK == 7
